@@ -15,7 +15,7 @@ import ast
 from sa.model import AnalysisError, FuncInfo
 from sa.ctx import Ctx, short, stmt_key
 from sa.cfg import NORMAL, describe_path
-from sa.report import Report
+from sa.report import Report, section
 from sa.util import cfg_root, node_has_call, node_stores_attr, has_fact, extra_facts, fact_in, fact_in
 from sa import pat, linear
 
@@ -284,10 +284,10 @@ def _is_time_call(e) -> bool:
 
 def run(ctx: Ctx, rep: Report, tier: str):
     c = C17(ctx, rep)
-    c.a1_a3()
-    c.a4()
-    c.a5_a7()
-    c.a8_a9()
+    section(rep, c.a1_a3)
+    section(rep, c.a4)
+    section(rep, c.a5_a7)
+    section(rep, c.a8_a9)
     rep.rule("C17.A10", "the default ageing interval is a positive fraction of the larger provider poll interval (max(sleep) / k, k >= 1)", expect_min=1)
     init = ctx.prog.func("SyncManager.__init__")
     asg = [n for n in ctx.own_nodes(init) if isinstance(n, ast.Assign) and pat.match("self.aging", n.targets[0]) is not None]
@@ -320,7 +320,7 @@ def run(ctx: Ctx, rep: Report, tier: str):
     from rules.common import parent_first_priorities
     rep.rule("C17.A13", "only the application's prioritize() makes an entry 'immediate': the engine's own priority arithmetic (gentle punt behind a changed parent) never turns a "
              "priority >= 0 into a negative one (C01.R8) - negative priorities skip ageing", 2)
-    parent_first_priorities(ctx, rep, "C17.A13")
+    section(rep, lambda: parent_first_priorities(ctx, rep, "C17.A13"))
     from rules.common import event_application_writes_through
     _alias(rep, ["C17.tmp"], "C17.A14", "every notification restarts the ageing clock: update_entry stamps the side changed whenever it is asked to, also when a change is already "
            "pending (C14.W11)", 1, lambda: (rep.rule("C17.tmp", "alias", 0), event_application_writes_through(ctx, rep, "C17.tmp")), keep=lambda i: i.key == "update_entry|mark_changed")
